@@ -103,7 +103,15 @@ lines.append("Each sub-agent saw only the text of one property and a scratch "
              "sequences, alternation between two datasets / scales, edits of "
              "returned objects, spellings of the dataset directory; 6 of 20 "
              "were caught as the checks stood, 2 were classified as outside "
-             "the domain (one directory holding both file layouts). %d changes in total: %d rejected as outside the "
+             "the domain (one directory holding both file layouts). Round "
+             "19 (S19-*) repeated round 18 with the enlarged list of what is "
+             "exercised (partial work, the order of three operations, one "
+             "thing in two roles; edge values, JSON spellings, degenerate "
+             "inputs, sub-classes); 6 were caught as the checks stood, 4 by "
+             "the check of another property, 4 were outside the domain "
+             "(a private function, two MIME types for one name, two storage "
+             "configurations in one directory, a direct call with a 3x4 "
+             "matrix), 6 became generator dimensions. %d changes in total: %d rejected as outside the "
              "quantified domain (marked), %d not detected (marked, a "
              "documented limit), %d detected; "
              "the 'caught by' column says when a check had to be "
